@@ -20,6 +20,15 @@ def parse_number(x):
     m = re.fullmatch(r"([-+]?)I\*([0-9.eE+-]+)", x)
     if m:
         return complex(0.0, float(m.group(1) + m.group(2)))
+    # an imaginary part of exactly one is printed without its factor: a+I, a-I, I, -I
+    if x in ("I", "+I", "-I"):
+        return complex(0.0, -1.0 if x[0] == "-" else 1.0)
+    m = re.fullmatch(r"([-+]?[0-9.eE+-]+?)([-+])I", x)
+    if m:
+        try:
+            return complex(float(m.group(1)), -1.0 if m.group(2) == "-" else 1.0)
+        except ValueError:
+            return None
     return None
 
 
